@@ -71,6 +71,16 @@ def _init_one(chk, func, pi, path, out, cur):
         chk.add(Ob(func, names[1], pid, hy, to_bool_term(nl) == rw.nullable(t)))
 
 
+def fatal(e):
+    """resource exhaustion: says nothing about whether the member accepts the value (re-raised by the union routines)"""
+    return z3.Or(sub(e, cls_const(RecursionError)), sub(e, cls_const(MemoryError)))
+
+
+def rejects(r, v):
+    """the member routine r rejects v: it raises an error other than resource exhaustion"""
+    return z3.And(run_raises(r, v), z3.Not(fatal(run_exc(r, v))))
+
+
 def call_obligations(chk, mod, cls):
     I = rw.make_interp()
     func = f"{mod}.{cls}.__call__"
@@ -78,7 +88,7 @@ def call_obligations(chk, mod, cls):
 
     def inv(I, path, env, k):
         r, val = box["r"], box["val"]
-        return [Q([IntS], lambda j: z3.Implies(z3.And(j >= 0, j < k), run_raises(r(j), val)), name="earlier-members-rejected")]
+        return [Q([IntS], lambda j: z3.Implies(z3.And(j >= 0, j < k), rejects(r(j), val)), name="earlier-members-rejected")]
     I.loop_specs[(func, 0)] = LoopSpec("members", lambda I, path, env, k: None, inv)
 
     def mk(I, path):
@@ -99,7 +109,8 @@ def call_obligations(chk, mod, cls):
     chk.trusted.update(I.assumed_used)
 
 
-CALL_CLAUSES = ["none-is-honoured", "result-is-first-acceptor's", "valueerror-only-when-every-member-rejects"]
+CALL_CLAUSES = ["none-is-honoured", "result-is-first-acceptor's", "valueerror-only-when-every-member-rejects",
+                "only-resource-exhaustion-of-a-member-surfaces-otherwise"]
 
 
 def _call_one(chk, func, pi, path, out, obls, cur):
@@ -125,20 +136,32 @@ def _call_one(chk, func, pi, path, out, obls, cur):
         else:
             chk.add(Ob(func, CALL_CLAUSES[1], pid, hy + [z3.Not(is_none)],
                        [z3.And(k >= 0, k < n, z3.Not(run_raises(r(k), val)), res == run(r(k), val)),
-                        Q([IntS], lambda j: z3.Implies(z3.And(j >= 0, j < k), run_raises(r(j), val)), name="first")]))
+                        Q([IntS], lambda j: z3.Implies(z3.And(j >= 0, j < k), rejects(r(j), val)), name="first")]))
         chk.add(Ob(func, CALL_CLAUSES[2], pid, hy, z3.BoolVal(True), {"trivial": True}))
+        chk.add(Ob(func, CALL_CLAUSES[3], pid, hy, z3.BoolVal(True), {"trivial": True}))
         return
     # raise
     exc = out.exc.exc_cls
     chk.add(Ob(func, CALL_CLAUSES[0], pid, hy, z3.Not(is_none)))
-    is_ve = isinstance(exc, type) and issubclass(exc, ValueError)
-    chk.add(Ob(func, CALL_CLAUSES[2], pid, hy,
-               [z3.BoolVal(bool(is_ve)),
-                Q([IntS], lambda j: z3.Implies(z3.And(j >= 0, j < n), run_raises(r(j), val)), name="all-reject")],
-               {"exc": str(exc)}))
     chk.add(Ob(func, CALL_CLAUSES[1], pid, hy, z3.BoolVal(True), {"trivial": True}))
-
-
+    if isinstance(exc, type):
+        # raised by the union routine itself: must be the ValueError of "every member rejects"
+        is_ve = issubclass(exc, ValueError)
+        chk.add(Ob(func, CALL_CLAUSES[2], pid, hy,
+                   [z3.BoolVal(bool(is_ve)),
+                    Q([IntS], lambda j: z3.Implies(z3.And(j >= 0, j < n), rejects(r(j), val)), name="all-reject")],
+                   {"exc": str(exc)}))
+        chk.add(Ob(func, CALL_CLAUSES[3], pid, hy, z3.BoolVal(bool(is_ve)), {"exc": str(exc)}))
+    else:
+        # an exception of a member routine surfaced: only resource exhaustion may, and only of the first member that did not reject
+        k = path.loop_k.get("members")
+        chk.add(Ob(func, CALL_CLAUSES[2], pid, hy, z3.BoolVal(True), {"trivial": True}))
+        if k is None:
+            chk.add(Ob(func, CALL_CLAUSES[3], pid, hy, z3.BoolVal(False), {"exc": str(exc), "note": "member exception outside the member loop"}))
+        else:
+            chk.add(Ob(func, CALL_CLAUSES[3], pid, hy,
+                       [z3.And(k >= 0, k < n, run_raises(r(k), val), exc == run_exc(r(k), val), fatal(exc)),
+                        Q([IntS], lambda j: z3.Implies(z3.And(j >= 0, j < k), rejects(r(j), val)), name="first")], {"exc": str(exc)}))
 
 
 # ----------------------------------------------------------------------------- isoptionaltype (callee contract)
